@@ -481,6 +481,24 @@ def symWalk (fs : Bytes → FsKind) (name : Bytes) : Int :=
 def symlinkServed (followSymlink : Bool) (fs : Bytes → FsKind) (path : Bytes) : Bool :=
   followSymlink || symWalk fs path = 0
 
+/-! ### mod_indexfile + the file layer -/
+
+/-- mod_indexfile_tryfiles(): the first configured index file that exists (stat(), follows symlinks)
+    replaces the directory path; names starting with '/' are relative to the doc root.
+    `exists_` is the filesystem. -/
+def indexResolve (exists_ : Bytes → Bool) (docroot phys : Bytes) : List Bytes → Bytes
+  | [] => phys
+  | v :: rest =>
+    let cand := pathAppend (if v.head? = some slash then docroot else phys) v
+    if exists_ cand then cand else indexResolve exists_ docroot phys rest
+
+/-- a static-file request: http_response_physical_path_check() walks the request's physical path,
+    http_response_send_file() walks the path finally opened (after mod_indexfile); with
+    follow-symlink enabled in the context of this request neither is walked.  No cache in the model:
+    the decision may depend on nothing but this request's context and the filesystem. -/
+def staticServed (follow : Bool) (fs : Bytes → FsKind) (phys final : Bytes) : Bool :=
+  follow || (symWalk fs phys = 0 && symWalk fs final = 0)
+
 /-! ### composition used by the end-to-end stream -/
 
 inductive VhostCfg
